@@ -18,9 +18,12 @@ VERIF = os.path.dirname(os.path.dirname(os.path.abspath(__file__)))
 REPO = os.environ.get("GRCOV_REPO", "/repo")
 COQ = os.path.join(VERIF, "coq")
 BUILD = os.path.join(VERIF, ".build")
-TARGET = os.path.join(BUILD, "target")
-CLI_TARGET = os.path.join(BUILD, "target-cli")
-EVID = os.path.join(VERIF, "evidence")
+# GRCOV_REPO=<dir> points the checks at another checkout (used to try seeded changes in a scratch worktree
+# without touching /repo); build products are kept apart per checkout
+_TAG = "" if REPO == "/repo" else "-" + hashlib.sha1(REPO.encode()).hexdigest()[:8]
+TARGET = os.path.join(BUILD, "target" + _TAG)
+CLI_TARGET = os.path.join(BUILD, "target-cli" + _TAG)
+EVID = os.environ.get("VERIF_EVIDENCE_DIR", os.path.join(VERIF, "evidence"))
 REPLAYS = os.path.join(EVID, "replays")
 GUARD = "mozilla_grcov_verif"
 NPROC = 16
@@ -416,6 +419,16 @@ def build_harness(debug_assertions=False):
     if key in _built:
         return _built[key]
     h = os.path.join(VERIF, "harness")
+    if _TAG:
+        # a private copy of the harness crate whose path dependency points at the other checkout
+        h2 = os.path.join(BUILD, "harness" + _TAG)
+        if os.path.exists(h2):
+            shutil.rmtree(h2)
+        shutil.copytree(h, h2, ignore=shutil.ignore_patterns("Cargo.lock", "target"))
+        mf = os.path.join(h2, "Cargo.toml")
+        txt = open(mf).read().replace('path = "/repo"', 'path = "%s"' % REPO)
+        open(mf, "w").write(txt)
+        h = h2
     shutil.copyfile(os.path.join(REPO, "Cargo.lock"), os.path.join(h, "Cargo.lock"))
     env = {"CARGO_TARGET_DIR": TARGET + ("-dbg" if debug_assertions else ""),
            "RUSTFLAGS": "--cfg %s" % GUARD + (" -C debug-assertions=on -C overflow-checks=on" if debug_assertions else "")}
